@@ -1,6 +1,7 @@
 """Registry: property id -> what decides it."""
 from orchestrate import Engine, Prop
 import scen
+import corpora
 
 KERNEL = "Lean 4.33.0 kernel (lake build; leanchecker re-check in the thorough tier); axioms per theorem audited ⊆ {propext, Quot.sound, Classical.choice}"
 TRANSLATOR = "tools/extract.py + tools/rsparse.py (translator: Rust fragments -> lean/GA/Gen/*.lean, regenerated every run)"
@@ -167,6 +168,18 @@ PROPS["C19"] = Prop(
     nontrivial=lambda s, impl: " n=0 " not in s and not s.endswith(" n=0"),
 )
 PARAMS["C19"] = {"rule": "every N in 0..=64 and {96,127,128,129,255,256,257,511,512,513,1000,1023,1024} (every even/odd storage shape to depth 10) x element types u8, u64, [u8;3], Slot{id kept, wiped set, secret cleared; DEFAULT not all-zero}, GenericArray<Slot,U3>: const_default() element-wise vs T::DEFAULT, vs Default::default(), vs the compile-time evaluated associated constants; zeroize() on seeded non-zero contents element-wise vs zeroizing each element by hand."}
+
+PROPS["C20"] = Prop(
+    "C20", ["GA.Props.C20"],
+    [Engine("arrmac", scen.arrmac, sig=lambda l: " ".join(t for t in l.split() if t.split("=")[0] in ("op", "box", "kind"))),
+     Engine("arrconst", scen.arrconst, runner=corpora.arrconst_runner, sig=lambda l: " ".join(t for t in l.split() if t.split("=")[0] in ("form", "pos")))],
+    trusted=[KERNEL, TRANSLATOR, HARNESS,
+             "modelled, not verified: macro_rules! matching (first arm whose matcher accepts), evaluation order of array literals / repeat expressions / vec!, which std functions are const fn; the program corpus runner (tools/corpus.py) reports rustc's verdict on const items built from the macro"],
+    assumptions=["an element expression is a value plus an effect on a log; the engine's expressions push their index",
+                 "lengths are limited to those typenum's Const<N> table supports (<= 1024), as the macro's documentation says"],
+    nontrivial=lambda s, impl: " k=0 " not in s and " n=0 " not in s,
+)
+PARAMS["C20"] = {"rule": "list form: every element count 0..=64, 100, 128, 255, 256 x {arr!, box_arr!} x {Copy, non-Copy elements} with index-logging element expressions, trailing commas 0/1/2 at small and boundary counts; both repeat forms x N in {0..8,16,17,31,32,33,64,97,255,256,1000,1023,1024} x {arr!, box_arr! (Copy and Clone-only elements)}: type-level length, values, evaluation log. Const positions: each list count and each repeat length as a const item (plus static and const fn bodies), compiled against the crate and compared with the literal at run time."}
 
 PROPS["C17"] = Prop(
     "C17", ["GA.Props.C17"],
